@@ -16,7 +16,9 @@ from vlib import cN, cB, cL, cO
 
 IMPORTS = "From PKO Require Import Package.\nFrom PKOCorr Require Import C16Corr."
 
-ID_CONS = "C16 unmet manifest constraint does not block deployment (validateConstraints returns nil)"
+# (the identity of the defect fixed by cb58cda, kept in known_findings.json as a record, was
+#  "C16 unmet manifest constraint does not block deployment (validateConstraints returns nil)")
+ID_CONS = "C16 unmet manifest constraint does not block the deployment or is not shown in the Invalid condition"
 IDS = [
     "C16 pull failure changes the ObjectDeployment or is not shown as Unpacked=False",
     "C16 load failure changes the ObjectDeployment or is not shown in the Invalid condition",
@@ -143,6 +145,15 @@ def image_pool():
     pool.append(Image("clusteronly", single("clusteronly", scopes="[Cluster]"), scopes=("Cluster",)))
     pool.append(Image("nsonly", single("nsonly", scopes="[Namespaced]"), scopes=("Namespaced",)))
     pool.append(Image("dupphase", single("dupphase", phases=("deploy", "deploy")), render=False))
+    # duplicate objects: twice in one file, in two files of the same phase, in two files of different phases
+    two = manifest("demo", phases=("deploy", "later"))
+    dup = configmap("dup").replace("{{ .package.image }}", "x").replace("{{ .config.x }}", "x").replace('{{ get .config "count" }}', "")
+    dup_later = dup.replace("package-operator.run/phase: deploy", "package-operator.run/phase: later")
+    pool.append(Image("dup-samefile", {"manifest.yaml": two, "a.yaml": dup + "---\n" + dup, "cm.yaml.gotmpl": configmap("d1")}, render=False))
+    pool.append(Image("dup-crossfile", {"manifest.yaml": two, "a.yaml": dup, "sub/b.yaml": dup, "cm.yaml.gotmpl": configmap("d2")}, render=False))
+    pool.append(Image("dup-crossphase", {"manifest.yaml": two, "a.yaml": dup, "b.yaml": dup_later, "cm.yaml.gotmpl": configmap("d3")}, render=False))
+    pool.append(Image("dup-tmpl", {"manifest.yaml": two, "a.yaml": dup, "b.yaml.gotmpl": dup_later, "cm.yaml.gotmpl": configmap("d4")}, render=False))
+    pool.append(Image("nodup", {"manifest.yaml": two, "a.yaml": dup, "b.yaml": dup_later.replace("cm-dup", "cm-other"), "cm.yaml.gotmpl": configmap("d5")}))
     # unusable lock file image reference
     pool.append(Image("badlock", single("badlock", imgs=[("app", "Not A Reference!!")]), images=False))
     # constraints
@@ -168,8 +179,36 @@ def image_pool():
 
 
 POOL = image_pool()
-VALID = ["good", "good2", "noschema", "locked", "multi"]
-INVALID = ["nomanifest", "badyaml", "badkind", "noanno", "missingphase", "clusteronly", "nsonly", "dupphase", "badlock"]
+
+# ordered constraint lists: Km / Ku Kubernetes version range met / unmet on 1.27.3; On an OpenShift version range (not
+# applicable on plain Kubernetes, unmet on 4.12.5, met on 4.15.1); Pm / Pu platform Kubernetes / OpenShift; U uniqueInScope
+ENTRY = {"Km": ("version", "Kubernetes", ">=1.20.0"), "Ku": ("version", "Kubernetes", ">=1.30.0"),
+         "On": ("version", "OpenShift", ">=4.14.0"), "Pm": ("platform", "Kubernetes"), "Pu": ("platform", "OpenShift"),
+         "U": ("unique",)}
+
+
+def cons_image(codes):
+    """The image whose manifest lists the constraints `codes` in that order (registered on first use)."""
+    name = "cl-" + "-".join(codes)
+    if name not in POOL:
+        cons = [ENTRY[c] for c in codes]
+        files = {"manifest.yaml": manifest("demo", constraints=cons), "cm.yaml.gotmpl": configmap(name)}
+        POOL[name] = Image(name, files, constraints=cons)
+    return name
+
+
+def constraint_lists(maxlen, r=None, sample=None):
+    import itertools
+    out = []
+    for n in range(1, maxlen + 1):
+        out += list(itertools.permutations(sorted(ENTRY), n))
+    if sample is not None and len(out) > sample:
+        short = [c for c in out if len(c) <= 2]
+        out = short + r.sample([c for c in out if len(c) > 2], sample - len(short))
+    return out
+VALID = ["good", "good2", "noschema", "locked", "multi", "nodup"]
+INVALID = ["nomanifest", "badyaml", "badkind", "noanno", "missingphase", "clusteronly", "nsonly", "dupphase", "badlock",
+           "dup-samefile", "dup-crossfile", "dup-crossphase", "dup-tmpl"]
 CONS = ["c-platform", "c-kube", "c-kube-lo", "c-ocp", "c-both", "c-unique", "c-unique-ocp", "c-badrange", "c-platform-noanno"]
 
 # no {}: the recording server does not see an edit between an absent and an empty config as a spec change
@@ -203,7 +242,7 @@ def oracle(sc, spec, pull_fail):
     """The stage outcomes this scenario was built to produce for `spec`."""
     img = POOL.get(spec["image"])
     o = {"pull": not pull_fail and img is not None, "load": True, "range_ok": True, "unmet": [], "unique": None,
-         "config": "CfgOk", "images": True, "render": True}
+         "config": "CfgOk", "images": True, "render": True, "cs": []}
     if img is None:
         return o
     comp = spec.get("component") or ""
@@ -212,26 +251,32 @@ def oracle(sc, spec, pull_fail):
     env = sc["environment"]
     ocp = env.get("openShift")
     cons = img.constraints if comp == "" else []
+    # entry by entry, as the Coq model's constraint_loop takes them (C16_constraint_list_conjunction)
+    entries, stop = [], False
     for c in cons:
         if c[0] == "platform":
-            if c[1] == "OpenShift" and ocp is None:
+            met = not (c[1] == "OpenShift" and ocp is None)
+            entries.append("CPlatform %s" % cB(met))
+            if not met and not stop:
                 o["unmet"].append("KPlatform")
         elif c[0] == "version":
-            if not c[2].startswith(">="):
+            kind = "KKubeVersion" if c[1] == "Kubernetes" else "KOpenShiftVersion"
+            lo = parse_ver(c[2][2:]) if c[2].startswith(">=") else None
+            applies = c[1] == "Kubernetes" or ocp is not None
+            v = parse_ver(env["kubernetes"]["version"] if c[1] == "Kubernetes" else ocp["version"]) if applies else None
+            parses = lo is not None and (v is not None or not applies)
+            met = bool(parses and applies and v >= lo)
+            entries.append("CVersion %s %s %s %s" % (kind, cB(parses), cB(applies), cB(met)))
+            if not parses:
                 o["range_ok"] = False
-                break
-            lo = parse_ver(c[2][2:])
-            if c[1] == "Kubernetes":
-                v = parse_ver(env["kubernetes"]["version"])
-            elif ocp is not None:
-                v = parse_ver(ocp["version"])
-            else:
-                continue
-            if v is None:
-                o["range_ok"] = False
-                break
-            if v < lo:
-                o["unmet"].append("KKubeVersion" if c[1] == "Kubernetes" else "KOpenShiftVersion")
+                stop = True  # checkConstraints returns the error
+            elif applies and not met and not stop:
+                o["unmet"].append(kind)
+        elif c[0] == "unique":
+            entries.append("CUniqueInScope")
+    o["cs"] = entries
+    if not o["range_ok"]:
+        o["unmet"] = []
     if any(c[0] == "unique" for c in cons):
         # what the constraint says: the (Cluster)Packages carrying the manifest's package label in the scope of the
         # Package, itself included if labelled.  (The Coq model computes the number the List returns from the peers.)
@@ -362,6 +407,22 @@ def unique_sweep():
             out.append(scenario(e0, spec("c-unique", None), [fault(2, kind), PASS, PASS], others=1, cluster=cluster))
         # a valid deployment, then a second package of the same manifest appears only for the next spec
         out.append(scenario(e0, spec("good", None), [PASS, edit(spec("c-unique", None)), PASS, PASS], others=1, cluster=cluster))
+    return out
+
+
+def constraint_list_sweep(r, tier):
+    """Ordered constraint lists of length 1-4 over {version met, version unmet, version of another platform, platform
+    met, platform unmet, uniqueInScope} in every order: on plain Kubernetes (the OpenShift range does not apply), and a
+    sample on OpenShift 4.12.5 / 4.15.1 (it applies: unmet / met), with and without a second package of the manifest."""
+    out = []
+    lists = constraint_lists(4, r, 260 if tier == "quick" else None)
+    for i, codes in enumerate(lists):
+        name = cons_image(codes)
+        out.append(scenario(ENVS[0], spec(name, None), [PASS], cluster=(i % 4 == 3)))
+    more = lists if tier != "quick" else r.sample(lists, 60)
+    for i, codes in enumerate(more):
+        name = cons_image(codes)
+        out.append(scenario(ENVS[2 + i % 2], spec(name, None), [PASS, PASS], others=(i // 2) % 2, cluster=(i % 5 == 4)))
     return out
 
 
@@ -517,14 +578,14 @@ def random_scenario(r):
 
 def gen(seed, tier):
     r = vlib.rng(seed, "C16")
-    fixed = [WITNESS] + classes() + unique_sweep() + faults_after_pull() + touch_sweep()
+    fixed = [WITNESS] + classes() + unique_sweep() + faults_after_pull() + touch_sweep() + constraint_list_sweep(r, tier)
     rest = corpus()
     if tier == "quick":
         out = fixed + r.sample(rest, min(len(rest), 60))
         n = len(out) + 60
     else:
         out = fixed + rest + touch_fault_sweep()
-        n = max(4000, len(out) + 1500)
+        n = max(4600, len(out) + 1500)
     while len(out) < n:
         out.append(random_scenario(r))
     return out
@@ -576,9 +637,9 @@ def c_spec(t):
 
 
 def c_oracle(o):
-    return "(Build_oracle %s %s %s %s %s %s %s %s)" % (
-        cB(o["pull"]), cB(o["load"]), cB(o["range_ok"]), cL(o["unmet"]), cO(None if o["unique"] is None else cN(o["unique"])),
-        o["config"], cB(o["images"]), cB(o["render"]))
+    # range_ok / unmet / unique of the Coq oracle are computed by the model from the entry list
+    return "(mk_oracle %s %s %s %s %s %s)" % (
+        cB(o["pull"]), cB(o["load"]), cL(o["cs"]), o["config"], cB(o["images"]), cB(o["render"]))
 
 
 def build_case(sc, obs):
@@ -708,7 +769,7 @@ def check(run, tier, seed, replay=None):
         "uniqueness is judged against every Package of the cluster", "ErrNonExisting" if SCOPED else "pass succeeds"))
     scs = [json.load(open(replay))["replay"]["scenario"]] if replay else gen(seed, tier)
     outs = vlib.run_harness("package", scs, par=8)
-    terms, idx, infos = [], [], {}
+    terms, idx, infos, mismatches = [], [], {}, {}
     for i, (sc, o) in enumerate(zip(scs, outs)):
         if "panic" in o:
             run.violation(ID_PANIC, {"scenario": sc, "panic": o["panic"], "stack": o.get("stack", "")[-3000:]}, True)
@@ -724,9 +785,9 @@ def check(run, tier, seed, replay=None):
             continue
         mm = intent_mismatch(info)
         if mm is not None:
-            run.violation("corr:C16/generator intent and reference render disagree",
-                          {"correspondence": "oracle of the scenario vs real loader/admission/renderer", "detail": mm, "scenario": sc}, False)
-            continue
+            # judged all the same: if the implementation rolls out what the scenario was built to have rejected (or the
+            # other way round) the monitor says so concretely; only otherwise is this a problem of the generator
+            mismatches[i] = mm
         if any(p["unconsumed_faults"] for _, _, p in info):
             pass  # a fault armed beyond the last request of the pass is dropped by harness and model alike
         terms.append(term)
@@ -781,7 +842,11 @@ def check(run, tier, seed, replay=None):
                 continue  # the stored template is the one another failing clause let through: reported once
             concrete = True
             run.violation(IDS[k], {"scenario": sc, "impl": obs, "oracles": [o for _, o, _ in info]}, True)
-        if not agree and not concrete:
+        if i in mismatches and not concrete:
+            run.violation("corr:C16/generator intent and reference render disagree",
+                          {"correspondence": "oracle of the scenario vs real loader/admission/renderer",
+                           "detail": mismatches[i], "scenario": sc}, False)
+        elif not agree and not concrete:
             run.violation("corr:C16/package model and implementation differ",
                           {"correspondence": "C16Corr.agree",
                            "scenario": sc, "impl": obs, "oracles": [o for _, o, _ in info]}, False)
